@@ -18,7 +18,7 @@ RULE = ("four sub-monitors driven through context_wrap: (cmd) a recording Comman
 ASSUMPTIONS = [
     "scalar top-level JSON documents and blank-only JSON input are outside the two clauses that name a result: only the exception-type clause is checked for them",
     "noise before a JSON document does not start with '{' or '[' and the document itself is a mapping or sequence",
-    "year-less logs: all true times lie within +-30 days of the query (the documented 330-day heuristic is exact there); 29 Feb is not generated for them",
+    "year-less logs: all true times lie strictly less than (365 or 366) - 330 days from the query (the documented 330-day heuristic is exact there; a share of lines sits 1 s .. 3 days inside that edge); 29 Feb is not generated for them",
     "timestamp-shaped substrings occur only where the generator put a stamp (ids and words contain no digits-colon patterns)",
 ]
 REACH = [
@@ -125,6 +125,28 @@ def gen_case(rng, tier, idx):
             entries.append({"t": t.isoformat(), "fmt_i": rng.randrange(2), "msg": "m#%d %s" % (i, rng.choice(WORDS[:7]))})
         else:
             entries.append({"t": None, "msg": "    cont#%d %s" % (i, rng.choice(WORDS[:7]))})
+    if yearless and rng.random() < 0.4:
+        # the edge of the documented heuristic: a year-less stamp more than 330 days ahead of (behind) the sought time
+        # belongs to the previous (next) year.  With L = 365 or 366 days between a stamp and the same stamp a year
+        # on, it is exact for true times strictly less than L - 330 days away from the sought time.
+        def leap(y):
+            return y % 4 == 0 and (y % 100 != 0 or y % 400 == 0)
+        edge = []
+        for sign in (-1, 1):
+            for delta in rng.sample([1, 2, 59, 3600, 43200, 86399, 86400, 3 * 86400], 3):
+                # both year lengths are tried; only the consistent one survives the check below
+                for L in (365, 366):
+                    t2 = q + sign * (datetime.timedelta(days=L - 330) - datetime.timedelta(seconds=delta))
+                    if t2.year != q.year + sign or (t2.month == 2 and t2.day == 29):
+                        continue
+                    # real distance between the stamp carried into the sought year and the true time
+                    moved = t2.replace(year=q.year)
+                    if abs((moved - t2).days) != L:
+                        continue
+                    edge.append({"t": t2.isoformat(), "fmt_i": rng.randrange(2), "msg": "m#e%d%d %s" % (sign + 1, delta, rng.choice(WORDS[:7]))})
+                    if rng.random() < 0.5:
+                        edge.append({"t": None, "msg": "    cont#e%d %s" % (delta, rng.choice(WORDS[:7]))})
+        entries = [e for e in edge if True] + entries if rng.random() < 0.5 else entries + edge
     return {"kind": kind, "format": fmt, "query": q.isoformat(), "entries": entries, "s": rng.choice([None, None, "alpha", ["alpha", "beta"], "x"])}
 
 
@@ -398,6 +420,7 @@ def run_time(spec, ctx):
         elif inc:
             exp.append(l)
     ctx.count("get_after_queries")
+    ctx.count("yearless_stamps_near_the_330_day_edge", sum(1 for e in spec["entries"] if e["t"] and e["msg"].startswith("m#e")))
     ctx.seen("time_formats", spec["format"])
     ctx.count("get_after_lines_expected", len(exp))
     if any(t == q for t in stamps if t):
